@@ -32,7 +32,7 @@ def replay_state(chk, st, cplx):
         expP = float(M.rat(s['P']))
         for ename, x, tol in variants:
             case = {'x': x, 'entry': ename, 'order': p, 'expect': {'A': expA, 'P': expP, 'k': expK}}
-            ok, res = call_guard(aryule, x if isinstance(x, list) else x.copy(), p)
+            ok, res = call_guard(aryule, x if isinstance(x, list) else x.copy(), p, norm='biased')
             chk.evaluations += 1
             if not ok:
                 chk.violation('C12:aryule:%s:raises:%s' % (mode, ename), 'aryule raises %r on non-zero data (%s input)' % (res, ename), case)
@@ -49,7 +49,7 @@ def replay_state(chk, st, cplx):
         # the estimator class exposes the same coefficients
         # the class exposes the same coefficients whatever the NFFT (larger, equal or smaller than the record)
         for nfft in sorted({16, N, max(p + 1, N - 1)}):
-            ok, obj = call_guard(lambda: pyule(xa.copy(), p, NFFT=nfft))
+            ok, obj = call_guard(lambda: pyule(xa.copy(), p, norm='biased', NFFT=nfft))
             if ok:
                 ok, _ = call_guard(lambda: obj.psd)
             if not ok:
@@ -82,7 +82,7 @@ def replay_state(chk, st, cplx):
                         chk.violation('C12:lpc:values:%s' % ename, 'lpc(x=%s as %s, %d): %s' % (xa.tolist(), ename, p, bad), {'x': xa, 'order': p, 'entry': ename})
     if N >= 4:
         xl = np.asarray(xs[-1])
-        ok, dev = call_guard(live_object_dev, lambda **kw: pyule(xl.copy(), **dict({'order': 2, 'NFFT': 8}, **kw)),
+        ok, dev = call_guard(live_object_dev, lambda **kw: pyule(xl.copy(), **dict({'order': 2, 'NFFT': 8, 'norm': 'biased'}, **kw)),
                              [('ar_order', 1, 'order'), ('NFFT', 9, 'NFFT'), ('NFFT', 3, 'NFFT'), ('sampling', 2.0, 'sampling'), ('ar_order', 2, 'order')],
                              outputs=('psd', 'ar', 'reflection'))
         if not ok or (dev is not None and dev > 1e-7):
@@ -148,7 +148,7 @@ def obs_events(chk):
         if cplx:
             x = x + 1j * rng.randn(N) * ((0.5 if kind < 3 else 0) if kind != 3 else 0) * (1 if kind < 4 else 0) + (1j * rng.randint(-2, 3, N) if kind == 3 else 0) + (1e-3j * rng.randn(N) if kind >= 4 else 0)
         ev = {'ev': 'yw', 'N': N, 'p': p, 'cplx': cplx, 'kind': int(kind)}
-        ok, res = call_guard(aryule, x.copy(), p)
+        ok, res = call_guard(aryule, x.copy(), p, norm='biased')
         ev['raised'] = not ok
         if ok:
             A, P, k = res
